@@ -110,7 +110,11 @@ class HrrAlgebra(AbstractAlgebra):
         return v
 
     def make_unitary(self, v):
-        fft_val = np.fft.fft(v)
+        # Use the half spectrum of the real input so that the result is
+        # conjugate-symmetric by construction (with the full spectrum, a
+        # vanishing coefficient could be replaced by 1 while its conjugate
+        # partner, vanishing only up to rounding noise, got an arbitrary phase).
+        fft_val = np.fft.rfft(v)
         fft_imag = fft_val.imag
         fft_real = fft_val.real
         fft_norms = np.sqrt(fft_imag**2 + fft_real**2)
@@ -118,7 +122,7 @@ class HrrAlgebra(AbstractAlgebra):
         fft_val[invalid] = 1.0
         fft_norms[invalid] = 1.0
         fft_unit = fft_val / fft_norms
-        return np.array((np.fft.ifft(fft_unit, n=len(v))).real)
+        return np.fft.irfft(fft_unit, n=len(v))
 
     def superpose(self, a, b):
         return a + b
